@@ -173,6 +173,23 @@ static std::string file_of(const std::vector<Placement>& pl) {
     }
     return s;
 }
+// the same option lines in another legal text layout: bit 0 DOS line ends, bit 1 last line without terminator,
+// bit 2 blanks around '=', bit 3 comment and blank lines in between
+static std::string cfg_layout(const std::string& text, long fmt) {
+    if (fmt == 0) return text;
+    auto lines = split(text, '\n');
+    while (!lines.empty() && lines.back().empty()) lines.pop_back();
+    std::string eol = (fmt & 1) ? "\r\n" : "\n", o;
+    for (size_t i = 0; i < lines.size(); i++) {
+        std::string l = lines[i];
+        if (fmt & 4) { size_t e = l.find('='); if (e != std::string::npos) l = l.substr(0, e) + " = " + l.substr(e + 1); }
+        if ((fmt & 8) && i % 3 == 1) o += "# a comment line" + eol + eol;
+        o += l;
+        if (i + 1 < lines.size() || !(fmt & 2)) o += eol;
+    }
+    return o;
+}
+static void write_cfg(const std::string& path, const std::string& text, long fmt) { write_file(path, cfg_layout(text, fmt)); }
 static void plan_put(Plan& p, const std::vector<Placement>& pl) {
     p.seti("npl", (long)pl.size());
     for (size_t i = 0; i < pl.size(); i++) { p.set("pl" + std::to_string(i), std::string(pl[i].on_cli ? (pl[i].form == 'S' ? "S" : pl[i].form == 'B' ? "B" : "C") : "F") + "|" + pl[i].name + "|" + pl[i].token); }
@@ -301,11 +318,13 @@ struct C13 : Scenario {
         bool prog = r.chance(0.12);
         p.set("mode", prog ? "prog" : "api");
         p.setu("entropy", r.u64());
+        p.seti("filefmt", r.chance(0.4) ? r.range(1, 15) : 0);     // text layout of the parent config file
         if (prog) {
             Cfg c; auto pl = runnable_placements(r, c, true);
             plan_put(p, pl);
-            p.seti("sigint", r.chance(0.3));
+            p.seti("sigint", r.chance(0.4) ? (r.chance(0.4) ? 1 : r.range(2, 1000000)) : 0);   // 0 none, 1 right after the .cfg is saved, >=2 a seeded set-up moment
             p.seti("inplace", r.chance(0.5));
+            p.seti("stalecfg", r.chance(0.3));
         } else plan_put(p, gen_placements(r, true, r.chance(0.5)));   // half of the plans also give options in both places
         return p;
     }
@@ -317,7 +336,7 @@ struct C13 : Scenario {
         for (auto& p : pl) { const Opt* op = find_opt(p.name); if (op && op->alias_of) alias = true; if (p.name == "BunchCurrent" && split(p.token, ' ').size() > 1) multi = true; if ((p.name == "SynchrotronFrequency" || p.name == "SyncFreq") && strtod(p.token.c_str(), nullptr) != 0) fsset = true; }
         std::string key = std::string("cls.") + plan.get("mode") + ".n" + std::to_string(pl.size() / 8) + (alias ? ".alias" : "") + (multi ? ".multi" : "") + (fsset ? ".fs" : ".alpha0");
         std::string parent = file_of(pl);
-        write_file(rc.workdir + "/parent.cfg", parent);
+        write_cfg(rc.workdir + "/parent.cfg", parent, plan.geti("filefmt", 0));
         if (plan.get("mode") == "api") {
             api_begin(rc.workdir, plan.getu("entropy"), 0);
             std::string g0cfg = rc.workdir + "/g0.cfg", g1cfg = rc.workdir + "/g1.cfg", g2cfg = rc.workdir + "/g2.cfg";
@@ -390,8 +409,14 @@ struct C13 : Scenario {
             long idx = 0, found = -1;
             for (auto& line : split(unesc(rd.sum["text"]), '\n')) { if (!starts_with(line, "P ")) continue; if (line == "P cfg_saved") found = idx; idx++; }
             if (found < 0) { o.set_infra("no cfg_saved point in dry launch: " + rd.describe() + tail(rd.err)); return o; }
-            sig.push_back(found);
+            // any moment of the set-up up to "the .cfg has just been saved": whenever an interrupted run leaves results, the .cfg next
+            // to them has to describe that run
+            long at = plan.geti("sigint") >= 2 ? (plan.geti("sigint") - 2) % (found + 1) : found;
+            sig.push_back(at);
+            if (at < found) o.probe("reach.sigint_during_setup_before_cfg_saved");
         }
+        // a .cfg of an earlier run with other settings may already lie under the same name: it must be replaced
+        if (plan.geti("stalecfg", 0)) { write_file(rc.workdir + "/g0.h5.cfg", "GridSize=16\nStepsPerTs=12\nrotations=0.1\nBunchCurrent=0.002\noutput=g0.h5\n"); o.probe("reach.stale_cfg_under_the_same_name"); }
         if (!launch(a0, "g0", sig, r0)) { o.set_infra("g0 failed: " + r0.describe() + " " + tail(r0.err)); return o; }
         if (sigint) { o.fault("sigint_after_cfg_saved"); a0.back() = "g0full.h5"; if (!launch(a0, "g0full", {}, r0full)) { o.set_infra("g0 (uninterrupted twin) failed"); return o; } }
         std::string cfgname = "g0.h5.cfg";
@@ -475,6 +500,7 @@ struct C20 : Scenario {
         std::string mode = u < 0.6 ? "api" : u < 0.75 ? "prog" : "fault";
         p.set("mode", mode);
         p.setu("entropy", r.u64());
+        p.seti("filefmt", r.chance(0.4) ? r.range(1, 15) : 0);     // text layout of the config file (DOS line ends, unterminated last line, blanks, comments)
         if (mode == "api") plan_put(p, gen_placements(r, true, true));
         else {
             Cfg c; auto pl = runnable_placements(r, c, true);
@@ -507,7 +533,7 @@ struct C20 : Scenario {
         auto pl = plan_get(plan);
         std::string mode = plan.get("mode");
         std::string parent = file_of(pl);
-        write_file(rc.workdir + "/parent.cfg", parent);
+        write_cfg(rc.workdir + "/parent.cfg", parent, plan.geti("filefmt", 0));
         long both = 0; bool alias = false, ign = false;
         { std::set<std::string> c, f; for (auto& p : pl) { const Opt* op = find_opt(p.name); std::string t = op && op->alias_of ? op->alias_of : p.name; (p.on_cli ? c : f).insert(t); if (op && op->alias_of) alias = true; if (op && op->ignore_only) ign = true; } for (auto& n : c) if (f.count(n)) both++; }
         if (mode == "api") {
@@ -599,8 +625,8 @@ struct C20 : Scenario {
             for (auto p : pl) { const Opt* op = find_opt(p.name); if (!op || op->ignore_only) continue; if (op->alias_of) p.name = op->alias_of; bool dup = false; for (auto& e : q) if (e.name == p.name) dup = true; if (dup) continue; p.on_cli = true; q.push_back(p); }
             pl = q;
         }
-        else if (fault == "truncated_key") { write_file(rc.workdir + "/parent.cfg", parent + "GridSi"); expect_fail_status = true; }
-        else if (fault == "unknown_key") { write_file(rc.workdir + "/parent.cfg", parent + "NoSuchOption" + std::to_string(farg % 10) + "=1\n"); expect_fail_status = true; }
+        else if (fault == "truncated_key") { write_cfg(rc.workdir + "/parent.cfg", parent + "GridSi", plan.geti("filefmt", 0)); expect_fail_status = true; }
+        else if (fault == "unknown_key") { write_cfg(rc.workdir + "/parent.cfg", parent + "NoSuchOption" + std::to_string(farg % 10) + "=1\n", plan.geti("filefmt", 0)); expect_fail_status = true; }
         else if (fault == "malformed_value" || fault == "malformed_alias") {
             // a key that is not on the command line and not already in the file
             std::vector<const Opt*> cand;
@@ -615,7 +641,7 @@ struct C20 : Scenario {
             if (cand.empty()) { o.discard("no free key for a malformed value"); return o; }
             const Opt* op = cand[(size_t)farg % cand.size()];
             std::string bad = op->type == T::boolean ? "maybe" : (farg % 2 ? "12x" : "abc");
-            write_file(rc.workdir + "/parent.cfg", parent + op->name + "=" + bad + "\n");
+            write_cfg(rc.workdir + "/parent.cfg", parent + op->name + "=" + bad + "\n", plan.geti("filefmt", 0));
             expect_fail_status = true;
         }
         l.args = argsbase();
